@@ -49,15 +49,41 @@ P = {
 }
 
 
-NORMAL = (" All rules run on the tree after three semantics-preserving normal forms (expansion of helpers that are not in the frozen inventory of the"
-          " reference tree, expansion of local aliases of final attributes, folding of single-use temporaries), so extract-method / alias / temporary"
-          " refactorings do not change the verdict.")
+NORMAL = (" All rules run on the tree after semantics-preserving normal forms (expansion of helpers that are not in the frozen inventory of the"
+          " reference tree and of twelve small reference helpers, expansion of local aliases of final attributes, folding of single-use temporaries), so"
+          " extract-method / inline-method / alias / temporary refactorings do not change the verdict. No repository code is imported or executed.")
+
+
+# deciding methods added or replaced during the build (DESIGN 9.6 / 9.7): evaluated decision tables take the place of
+# several shape-matching rules
+EXTRA = {
+    "C01": "framing decision (Content-Length x Transfer-Encoding x version), transfer-coding list, request line (every byte value per position x the permit_* switches), "
+           "header block (every byte value in name/value, obs-fold, header_map modes; independent oracle) and chunk-size line (~1100 lines) are decision tables evaluated by the analyser's "
+           "abstract interpreter from the function entry on enumerated inputs and compared with specification-side oracles",
+    "C02": "write()/sendfile count table, start_response state table and response_length reachability evaluated from the entry; emitted head bytes evaluated for a concrete Response",
+    "C03": "reap_workers evaluated per exit code 0..255 (halt exactly for the two boot-failure codes) incl. the reexec_pid reset; 'reap until no child' stated over CFG edges",
+    "C04": "signals sent by stop() evaluated; kill sites found as loops over WORKERS; gevent drain loop found through its deadline local",
+    "C05": "handle_error evaluated per exception class (status, reason, message; request object type); write_error reply evaluated byte for byte; dispatched request followed through copies of next(parser)",
+    "C06": "short-buffer evaluation: from the head of the governing read loop, no buffer shorter than the compared constant lets control leave the loop without a read",
+    "C07": "trailers parsed exactly after a zero-size chunk (evaluated on chunk-size lines); one parser per connection",
+    "C08": "header-block trust table (forwarded_allow_ips x peer x secure-scheme headers, duplicates, conflicts) from the evaluated header table; PROXY info carried across the requests of one connection, "
+           "evaluated on a three-request history with heap objects (handler loop / one call per request)",
+    "C09": "bytes handed to util.write evaluated for a concrete Response; start_response state table",
+    "C12": "limits part of the evaluated header-block table (field count, field size incl. continuation lines and CRLF, 0 = unlimited)",
+    "C13": "keep-alive reaper table (deadline - now) evaluated; deadline sites found by effect",
+    "C15": "header-to-environ key table, request-line split and split_request_uri evaluated on concrete inputs",
+    "C16": "configuration-file location table (cli x env x default -> exactly one load) and 'which pairs of a mapping source reach cfg.set' (None included, unknown names of the file ignored) evaluated from the entry; add_argument kwargs evaluated",
+    "C18": "'worker no longer alive => response forced to close' evaluated from the entry with `alive` snapshots",
+    "C20": "heartbeat-file chown decision evaluated over master uid/gid x configured uid/gid",
+}
 
 
 def main():
     checks = []
     for pid in sorted(P):
         ref, tech, text = P[pid]
+        if pid in EXTRA:
+            tech = tech + "; evaluated tables: " + EXTRA[pid] + "."
         tech = tech + NORMAL
         checks.append({
             "property_id": pid,
